@@ -1,5 +1,5 @@
 #!/bin/bash
-# fixsweep.sh: every repaired defect F1..F20, F23..F26 is detected again when its fix is reverted
+# fixsweep.sh: every repaired defect F1..F20, F23..F27 is detected again when its fix is reverted
 cd /verif
 tools/fixrevert.sh d6a87fc C01
 tools/fixrevert.sh 177e609 C03 C12
@@ -21,3 +21,4 @@ tools/fixrevert.sh 8458cab C05
 tools/fixrevert.sh 5d32eff C14
 tools/fixrevert.sh 9ad6b38 C04
 tools/fixrevert.sh 051c4b6 C18
+tools/fixrevert.sh 1d5e508 C18
